@@ -36,14 +36,18 @@ func zzBitmap() [4]uint64 {
 
 // ZZ_C08_present_idx: node48 / node256 next/prevPresentIdx for every bitmap and the starts the
 // iterators and the grow/shrink code can pass (next: 0..256, prev: -1..255; quick tier: the
-// boundary starts of zzStarts, thorough: all).
+// boundary starts of zzStarts, thorough: five positions in every word, all_starts=1: all).
 func ZZ_C08_present_idx() {
 	p := zzBitmap()
 	which := zzChoice("which", 4)
 	var s int
-	if zzParam("all_starts", 0) == 1 {
+	switch zzParam("all_starts", 0) {
+	case 1: // every start (about 3600 paths, ~4 h of z3 time on a loaded machine: run on demand)
 		s = zzChoice("start", node256cap+1)
-	} else {
+	case 2: // thorough: first, second, middle, last-but-one and last bit of every word, and 256
+		w := zzChoice("start.word", 4)
+		s = 64*w + []int{0, 1, 31, 62, 63, 64}[zzChoice("start.bit", 6)]
+	default:
 		s = zzStarts[zzChoice("start", len(zzStarts))]
 	}
 	var n48 node48
